@@ -105,3 +105,10 @@ META["C04"] = {
     "note": "Program shapes are enumerated by forking; values are symbolic (solver-decided equalities). Trusted as C01.",
     "technique": "symbolic execution of go/ssa + SMT (z3), step lemma + differential against a chain-of-dictionaries reference, native replay",
 }
+
+META["C02"] = {
+    "text": "Cancellation in logical time: the real ExecuteContext runs every spinning/blocking core, alone and under every wrapping construct, with a context that reports done from its c-th poll on (c enumerated) or is cancelled while the interpreter is blocked in the engine's channel/select model; after the first poll that observes the cancellation no probe may be logged, no later statement may run, the call must return the error 'execution interrupted', and exceeding the instruction budget afterwards is a violation.",
+    "design_ref": "DESIGN.md §5 C02",
+    "note": "The wall-clock half ('within a short bounded time') is not applicable: time is replaced by poll and instruction counts. Known finding (recorded): script functions converted to Go func types run under context.Background().",
+    "technique": "symbolic execution of go/ssa (bounded exhaustive exploration) with a poll-counting context and channel model, unwinding assertions, native replay",
+}
